@@ -65,7 +65,13 @@ impl FileSystem {
     pub(crate) fn get_object_path(&self, bucket: &str, key: &str) -> Result<PathBuf> {
         let dir = Path::new(&bucket);
         let file_path = Path::new(&key);
-        self.resolve_abs_path(dir.join(file_path))
+        let bucket_path = self.resolve_abs_path(dir)?;
+        let object_path = self.resolve_abs_path(dir.join(file_path))?;
+        // the key must not lead out of its bucket (`..`, absolute paths)
+        if object_path.starts_with(&bucket_path).not() {
+            return Err(std::io::Error::new(std::io::ErrorKind::InvalidInput, "object key escapes its bucket").into());
+        }
+        Ok(object_path)
     }
 
     /// resolve bucket path under the virtual root
